@@ -511,8 +511,29 @@ func installed(w *World) [][2]string {
 		return nil
 	}
 	var out [][2]string
+	in := map[string]bool{}
 	for _, n := range g.Nodes[1:] {
 		out = append(out, [2]string{n.Version.Name, n.Version.Version})
+		in[n.Version.Name] = true
+	}
+	if w.Sys == "maven" && w.Manifest.Pom != nil {
+		// packages that are only managed (visible with MavenManagement): aim at an old version
+		// of what the managed requirement admits
+		props := w.Manifest.props()
+		for _, d := range w.Manifest.Pom.Mgmt {
+			p := w.pkg(d.Name())
+			if in[d.Name()] || p == nil {
+				continue
+			}
+			if c, err := semverOf(w).ParseConstraint(interpolate(d.V, props)); err == nil {
+				for _, v := range p.Vers {
+					if c.Match(v.V) {
+						out = append(out, [2]string{d.Name(), v.V})
+						break
+					}
+				}
+			}
+		}
 	}
 	return out
 }
@@ -661,7 +682,7 @@ func genOpts(rt *rapid.T, w *World, maxUpgrades []int, plain, conc bool) Opts {
 		return o
 	}
 	if plain && !conc && w.Sys == "maven" && w.Mode == "fix" {
-		o.MavenManagement = chance(rt, "mavenmanagement", 1, 4)
+		o.MavenManagement = chance(rt, "mavenmanagement", 1, 3)
 	}
 	if plain && conc {
 		o.MinSeverity = draw(rt, "minseverity", 0.0, 0.0, 5.0)
